@@ -1,4 +1,8 @@
 pub mod c01;
+pub mod c02;
+pub mod c08;
+pub mod c09;
+pub mod c11;
 pub mod common;
 
 use crate::runner::{Monitor, Tier};
@@ -6,6 +10,10 @@ use crate::runner::{Monitor, Tier};
 pub fn get(id: &str, tier: Tier) -> Option<Monitor> {
     match id {
         "C01" => Some(c01::monitor(tier)),
+        "C02" => Some(c02::monitor(tier)),
+        "C08" => Some(c08::monitor(tier)),
+        "C09" => Some(c09::monitor(tier)),
+        "C11" => Some(c11::monitor(tier)),
         _ => None,
     }
 }
